@@ -4,6 +4,7 @@ three foci of one state machine; every emitted state replayed on pyhf.PatchSet /
 import json
 import random
 import re
+from concurrent.futures import ThreadPoolExecutor
 
 import tlc
 from common import Machinery, Verdict, seed
@@ -12,15 +13,20 @@ from pool import run_chunks
 INVARIANTS = ["RegisterIsAccept", "TwoMapsExact", "LookupExact", "VariantsClassified", "VerifyIffRecorded", "ApplyPure",
               "ImplEqDefOutsideInternal", "CollisionExplains", "Emit"]
 
+# The implementation-shaped layer transcribes the tree as read: _patches_by_key = {'name': {}, 'values': {}}.  Once the
+# dictionary starts empty in /repo (proposed fix c17_patchset.diff) set this to False: ImplEqDef is then asserted.
+IMPL_SHARED_BOOKKEEPING = True
+
 # AllNames == <<"name", "values", "metadata", "patches", "Sig_A", "sig_a", "p_3">>;  AllGrid == <<0, 1, 3/2, -2>>
 BASE = dict(NameSel={1, 2, 3, 4, 5, 6}, LabelCounts={1, 2}, GridSel={1, 2, 3}, MaxPatches=2, DigestCfgs={1},
-            DoLookup=False, DoVerify=False, DoApply=False, MaxOps=0, ApplyVariantKinds=set(), EmitMod=1)
+            DoLookup=False, DoVerify=False, DoApply=False, MaxOps=0, ApplyVariantKinds=set(), EmitMod=1,
+            SharedBookkeeping=IMPL_SHARED_BOOKKEEPING)
 ALLDIG = set(range(1, 11))
 TIERS = {
     "quick": {
         "lookup": dict(BASE, DoLookup=True, EmitMod=1),
         "verify": dict(BASE, NameSel={3, 6}, LabelCounts={1}, GridSel={2}, MaxPatches=1, DigestCfgs=ALLDIG, DoVerify=True),
-        "apply": dict(BASE, NameSel={2, 3, 6}, LabelCounts={1}, GridSel={1, 3}, DigestCfgs={2, 5}, DoApply=True, MaxOps=2,
+        "apply": dict(BASE, NameSel={3, 6}, LabelCounts={1}, GridSel={1, 3}, DigestCfgs={2, 5}, DoApply=True, MaxOps=2,
                       ApplyVariantKinds={'"same"', '"permall"', '"swap"'}, EmitMod=4),
     },
     "thorough": {
@@ -58,10 +64,24 @@ def run(prop, tier):
     runs = {}
     header = None
     lines = []
-    for focus, c in TIERS[tier].items():
+    def model_check(item):
+        focus, c = item
         consts = dict(c, EmitCases=True, EmitRes=sd % c["EmitMod"])
-        cfg = tlc.make_cfg(consts, invariants=INVARIANTS)
-        res = tlc.run("MC_PatchSet", cfg, workers=16, timeout=3000, tag=focus)
+        invs = INVARIANTS + ([] if IMPL_SHARED_BOOKKEEPING else ["ImplEqDef"])
+        return focus, tlc.run("MC_PatchSet", tlc.make_cfg(consts, invariants=invs), workers=8, timeout=3000, tag=focus)
+
+    def model_check_cex(shared):
+        return f"ImplEqDef:{shared}", tlc.run("MC_PatchSet", tlc.make_cfg(dict(CEX, SharedBookkeeping=shared), invariants=["ImplEqDef"]),
+                                              workers=1, timeout=600, tag=f"ImplEqDef{shared}")
+
+    # the foci are independent TLC runs of one module: run them side by side
+    with ThreadPoolExecutor(max_workers=6) as ex:
+        futs = [ex.submit(model_check, it) for it in TIERS[tier].items()] + [ex.submit(model_check_cex, b) for b in (True, False)]
+        results = dict(f.result() for f in futs)
+    cex, cex_fixed = results.pop("ImplEqDef:True"), results.pop("ImplEqDef:False")
+    if not cex_fixed.ok:
+        raise Machinery("MC_PatchSet: ImplEqDef fails although the dictionary starts empty:\n" + cex_fixed.tail[-2000:])
+    for focus, res in results.items():
         if not res.ok:
             raise Machinery(f"MC_PatchSet ({focus}): an invariant of the specification fails:\n" + res.tail[-3000:])
         n = 0
@@ -79,13 +99,13 @@ def run(prop, tier):
         raise Machinery("MC_PatchSet printed no header (KeyOrder / recorded documents)")
 
     # TLC itself shows where the implementation-shaped layer leaves the definition: ImplEqDef is violated
-    cex = tlc.run("MC_PatchSet", tlc.make_cfg(CEX, invariants=["ImplEqDef"]), workers=1, timeout=600, tag="ImplEqDef")
     if cex.ok:
         impl_vs_def = {"ImplEqDef": "holds on the small model (implementation layer = definition layer)"}
     elif any("ImplEqDef is violated" in e for e in cex.errors):
         impl_vs_def = {"ImplEqDef": "violated (not asserted; explanation of findings on patches/keys named 'name'/'values')",
                        "counterexample": _counterexample(cex.tail),
-                       "holds_instead": ["ImplEqDefOutsideInternal", "CollisionExplains"]}
+                       "holds_instead": ["ImplEqDefOutsideInternal", "CollisionExplains"],
+                       "with_empty_initial_dictionary": f"ImplEqDef holds ({cex_fixed.distinct} states)"}
     else:
         raise Machinery("MC_PatchSet (ImplEqDef run) failed for another reason:\n" + cex.tail[-2000:])
 
@@ -97,13 +117,14 @@ def run(prop, tier):
     nch = 64
     size = (len(lines) + nch - 1) // nch
     chunks = [lines[i:i + size] for i in range(0, len(lines), size)]
-    total = nontriv = agree = blocked = digest_checks = applied_valid = applied_invalid = 0
+    total = nontriv = agree = blocked = digest_checks = applied_valid = applied_invalid = doc_mutated = 0
     classes, phases, drifts, tolerated = {}, {}, {}, {}
     reported = {}
     for out in run_chunks("patchset_replay", "replay", chunks, procs=16, kwargs={"header": header, "seed": sd}):
         if out.get("machinery"):
             raise Machinery(out["machinery"])
         total += out["n"]; nontriv += out["nontrivial"]; agree += out["impl_agree"]; blocked += out["blocked"]
+        doc_mutated += out["doc_mutated"]
         digest_checks += out["digest_checks"]; applied_valid += out["applied_valid"]; applied_invalid += out["applied_invalid_ws"]
         for src, dst in ((out["classes"], classes), (out["phases"], phases), (out["drift"], drifts), (out["tolerated"], tolerated)):
             for k, n in src.items():
@@ -113,6 +134,9 @@ def run(prop, tier):
             reported[cls] = reported.get(cls, 0) + 1
             if reported[cls] <= 2:
                 v.violation(key, detail, tags)
+    missing = {"sealed", "looked", "verified", "applied", "reapplied"} - {k for k, n in phases.items() if n > 0}
+    if missing:
+        raise Machinery(f"vacuous run: no replayed case in phase(s) {sorted(missing)}")
     for what, n in sorted(drifts.items()):
         v.model_drift("PatchSet.tla implementation layer", f"{what} [{n} cases]")
     for ln in rnd.sample(lines, min(4, len(lines))):
@@ -126,7 +150,7 @@ def run(prop, tier):
         evaluations=total, distinct_nontrivial=nontriv, cases_by_phase=phases,
         traces_validated_against_impl=agree, blocked_by_refused_constructor=blocked,
         digest_checks=digest_checks, applied_valid_workspace=applied_valid, applied_result_not_a_workspace=applied_invalid,
-        finding_classes=classes, tolerated=tolerated,
+        patchset_document_modified_by_apply=doc_mutated, finding_classes=classes, tolerated=tolerated,
         rule=("TLC explores Register* -> Seal -> (Lookup | Verify | Apply) in three foci of MC_PatchSet.tla: (lookup) all documents of <= MaxPatches "
               "patches over a name pool containing 'name', 'values', 'metadata', 'patches' and ordinary names x value tuples over a rational grid with "
               "1-2 labels incl. wrong lengths and duplicates, x all keys (names present/absent, tuples and lists present/absent/too short/too long, "
